@@ -164,3 +164,114 @@ func c15OwnLoaders(e *Env) {
 		os.RemoveAll(root)
 	}
 }
+
+// c15Compiled: the CompiledLoader as the source of templates. A build engine saves successive versions of "page"
+// into the directory (with increasing file times); the serving engine — plain, after LoadCompiled, after LoadAll —
+// must serve what the configuration calls for: the new version once auto-reload sees a newer file, the new version
+// at once with the cache off, not-found once the file is gone.
+func c15Compiled(e *Env) {
+	r := e.Rep
+	for _, preload := range []string{"none", "LoadCompiled", "LoadAll"} {
+		for _, mode := range []string{"auto-reload", "cache-off", "auto-reload-then-cache-off"} {
+			dir, err := os.MkdirTemp("", "c15cl-")
+			if err != nil {
+				return
+			}
+			res := guarded(func() (string, error) {
+				build := twig.New()
+				out := twig.NewCompiledLoader(dir)
+				clock := int64(0)
+				save := func(name, source string) error {
+					if err := build.RegisterString(name, source); err != nil {
+						return err
+					}
+					if err := out.SaveCompiled(build, name); err != nil {
+						return err
+					}
+					clock += 600
+					t := time.Unix(1_700_000_000+clock, 0)
+					files, _ := filepath.Glob(filepath.Join(dir, name+"*"))
+					for _, f := range files {
+						os.Chtimes(f, t, t)
+					}
+					return nil
+				}
+				if err := save("page", "one {{ x }}"); err != nil {
+					return "", err
+				}
+				if err := save("part", "P1"); err != nil {
+					return "", err
+				}
+				eng := twig.New()
+				if mode != "cache-off" {
+					eng.SetAutoReload(true)
+				} else {
+					eng.SetCache(false)
+				}
+				loader := twig.NewCompiledLoader(dir)
+				eng.RegisterLoader(loader)
+				switch preload {
+				case "LoadCompiled":
+					if err := loader.LoadCompiled(eng, "page"); err != nil {
+						return "", fmt.Errorf("LoadCompiled: %w", err)
+					}
+				case "LoadAll":
+					if err := loader.LoadAll(eng); err != nil {
+						return "", fmt.Errorf("LoadAll: %w", err)
+					}
+				}
+				ctx := map[string]interface{}{"x": "!"}
+				expect := func(step, want string) error {
+					for k := 0; k < 2; k++ {
+						got, err := eng.Render("page", ctx)
+						if err != nil || got != want {
+							return fmt.Errorf("SERVES-OTHER-SOURCE %s: Render(page) = %q, %v; want %q", step, got, err, want)
+						}
+					}
+					return nil
+				}
+				if err := expect("first", "one !"); err != nil {
+					return "", err
+				}
+				if err := save("page", "two {{ x }}{% include 'part' %}"); err != nil {
+					return "", err
+				}
+				if err := expect("after a newer compiled file", "two !P1"); err != nil {
+					return "", err
+				}
+				if mode == "auto-reload-then-cache-off" {
+					eng.SetAutoReload(false)
+					eng.SetCache(false)
+				}
+				if err := save("part", "P2"); err != nil {
+					return "", err
+				}
+				if err := save("page", "three {{ x }}{% include 'part' %}"); err != nil {
+					return "", err
+				}
+				if err := expect("after a third version", "three !P2"); err != nil {
+					return "", err
+				}
+				files, _ := filepath.Glob(filepath.Join(dir, "page*"))
+				for _, f := range files {
+					os.Remove(f)
+				}
+				if got, err := eng.Render("page", ctx); err == nil {
+					return "", fmt.Errorf("SERVES-OTHER-SOURCE after the compiled file was removed: Render(page) = %q", got)
+				}
+				return "ok", nil
+			})
+			os.RemoveAll(dir)
+			r.Seen("compiled-loader:"+preload+":"+mode, true)
+			r.Hit("compiled-loader-history")
+			if res.Class == "panic" || res.Class == "timeout" || (res.Err != nil && strings.Contains(res.Err.Error(), "SERVES-OTHER-SOURCE")) {
+				if r.Violate(Violation{Key: "own-loader-serves-other-source", What: fmt.Sprintf("CompiledLoader, preload %s, %s: %v %s", preload, mode, res.Err, res.Class),
+					Broken: "theorem C15_serves_expected (CompiledLoader is outside the model; implementation-only oracle)", Replay: map[string]any{"kind": "compiled-loader-history", "preload": preload, "mode": mode, "err": fmt.Sprint(res.Err)}}) {
+					return
+				}
+			} else if res.Err != nil {
+				r.Skip("compiled-loader-history-setup:" + truncate(res.Err.Error(), 60))
+			}
+		}
+	}
+}
